@@ -944,9 +944,118 @@ fn large_transfers(ctx: &Ctx, thorough: bool) -> u64 {
     t
 }
 
+/// Host byte buffers as readers (&[u8], Cursor<&[u8]>, Cursor<Vec<u8>>) that hold fewer, as many
+/// or more bytes than a transfer asks for, at slice, region and guest-memory level: whether the
+/// transfer succeeds or fails, exactly the bytes that left the reader are in guest memory, in
+/// order, and nothing else changed - a second transfer from the same reader continues there.
+fn host_buffer_readers(ctx: &Ctx) -> u64 {
+    use std::io::Cursor;
+    let region = GuestRegionMmap::<()>::from_range(GuestAddress(BASE), CELLS, None).unwrap();
+    let memory = GuestMemoryMmap::<()>::from_ranges(&[(GuestAddress(BASE), REG_A), (GuestAddress(BASE + REG_A as u64), REG_B)]).unwrap();
+    let mut t = 0u64;
+    fn go<R: ReadVolatile>(level: usize, exact: bool, off: usize, count: usize, r: &mut R, region: &GuestRegionMmap<()>, memory: &GuestMemoryMmap<()>) -> Result<Option<usize>, String> {
+        match level {
+            0 => {
+                let vs = region.as_volatile_slice().unwrap();
+                if exact { vs.read_exact_volatile_from(off, r, count).map(|_| None).map_err(|e| format!("{:?}", e)) } else { vs.read_volatile_from(off, r, count).map(Some).map_err(|e| format!("{:?}", e)) }
+            }
+            1 => {
+                let a = MemoryRegionAddress(off as u64);
+                if exact { region.read_exact_volatile_from(a, r, count).map(|_| None).map_err(|e| format!("{:?}", e)) } else { region.read_volatile_from(a, r, count).map(Some).map_err(|e| format!("{:?}", e)) }
+            }
+            _ => {
+                let a = GuestAddress(BASE + off as u64);
+                if exact { memory.read_exact_volatile_from(a, r, count).map(|_| None).map_err(|e| format!("{:?}", e)) } else { memory.read_volatile_from(a, r, count).map(Some).map_err(|e| format!("{:?}", e)) }
+            }
+        }
+    }
+    for level in 0..3usize {
+        for kind in 0..3usize {
+            for (have, off, count) in [(0usize, 2usize, 5usize), (3, 2, 5), (7, 1, 11), (5, 2, 5), (9, 3, 5), (4, 6, 6), (1, 0, 14)] {
+                for exact in [true, false] {
+                    t += 1;
+                    ctx.case(true);
+                    let fill: Vec<u8> = (0..CELLS).map(label).collect();
+                    let set = || {
+                        if level == 2 {
+                            let mut o = 0;
+                            for r in memory.iter() {
+                                unsafe { std::ptr::copy_nonoverlapping(fill[o..].as_ptr(), r.as_ptr(), r.len() as usize) };
+                                o += r.len() as usize;
+                            }
+                        } else {
+                            unsafe { std::ptr::copy_nonoverlapping(fill.as_ptr(), region.as_ptr(), CELLS) };
+                        }
+                    };
+                    let get = || -> Vec<u8> {
+                        if level == 2 {
+                            memory.iter().flat_map(|r| unsafe { std::slice::from_raw_parts(r.as_ptr(), r.len() as usize) }.to_vec()).collect()
+                        } else {
+                            unsafe { std::slice::from_raw_parts(region.as_ptr(), CELLS) }.to_vec()
+                        }
+                    };
+                    set();
+                    let data: Vec<u8> = (0..have + 6).map(stream_byte).collect();
+                    let avail = &data[..have];
+                    // first transfer, then a second one of 3 bytes from the same reader
+                    let (res, left_after_first, res2, left_after_second): (Result<Option<usize>, String>, usize, Result<Option<usize>, String>, usize) = match kind {
+                        0 => {
+                            let mut r: &[u8] = avail;
+                            let a = go(level, exact, off, count, &mut r, &region, &memory);
+                            let l1 = r.len();
+                            let b = go(level, false, 0, 3.min(CELLS), &mut r, &region, &memory);
+                            (a, l1, b, r.len())
+                        }
+                        1 => {
+                            let mut r = Cursor::new(avail);
+                            let a = go(level, exact, off, count, &mut r, &region, &memory);
+                            let l1 = have - (r.position() as usize).min(have);
+                            let b = go(level, false, 0, 3.min(CELLS), &mut r, &region, &memory);
+                            (a, l1, b, have - (r.position() as usize).min(have))
+                        }
+                        _ => {
+                            let mut r = Cursor::new(avail.to_vec());
+                            let a = go(level, exact, off, count, &mut r, &region, &memory);
+                            let l1 = have - (r.position() as usize).min(have);
+                            let b = go(level, false, 0, 3.min(CELLS), &mut r, &region, &memory);
+                            (a, l1, b, have - (r.position() as usize).min(have))
+                        }
+                    };
+                    let consumed1 = have - left_after_first;
+                    let consumed2 = left_after_first - left_after_second;
+                    let after = get();
+                    let mut want = fill.clone();
+                    let n1 = consumed1.min(CELLS - off);
+                    want[off..off + n1].copy_from_slice(&data[..n1]);
+                    let n2 = consumed2.min(3);
+                    want[..n2].copy_from_slice(&data[consumed1..consumed1 + n2]);
+                    let mut bad: Option<(&str, String)> = None;
+                    if after != want {
+                        bad = Some(("consumed-bytes-not-in-memory", format!("the reader gave up {} + {} bytes; guest memory is {} but should be {}", consumed1, consumed2, hex(&after), hex(&want))));
+                    } else if consumed1 > count || (exact && res.is_ok() && consumed1 != count) || (exact && have >= count && res.is_err()) || (exact && have < count && res.is_ok()) {
+                        bad = Some(("result", format!("reader held {} bytes, {} requested ({}): returned {:?} after taking {} bytes", have, count, if exact { "exact" } else { "up to" }, res, consumed1)));
+                    } else if !exact && res != Ok(Some(have.min(count))) && count > 0 {
+                        bad = Some(("result", format!("reader held {} bytes, up to {} requested: returned {:?}", have, count, res)));
+                    } else if res2 != Ok(Some(left_after_first.min(3))) {
+                        bad = Some(("second-transfer", format!("{} bytes were left in the reader, a second transfer of up to 3 returned {:?}", left_after_first, res2)));
+                    }
+                    if let Some((k, d)) = bad {
+                        let lv = ["slice", "region", "guest memory"][level];
+                        let rk = ["&[u8]", "Cursor<&[u8]>", "Cursor<Vec<u8>>"][kind];
+                        let key = format!("C14/host-buffer-reader/{}/{}/{}/{}", lv, rk, if exact { "read_exact_volatile_from" } else { "read_volatile_from" }, k);
+                        let rp = if ctx.has_failed(&key) { Value::Null } else { json!({"level": lv, "reader": rk, "reader_holds": have, "offset": off, "count": count, "exact": exact}) };
+                        ctx.fail(&key, &format!("offset {} count {}: {}", off, count, d), rp);
+                    }
+                }
+            }
+        }
+    }
+    t
+}
+
 pub fn run(tier: Tier, replay: Option<String>) -> i32 {
     let ctx = crate::new_ctx("C14", tier, "fault_enumeration", &replay);
-    ctx.set_rule("choice-tree DFS: every call the transfer makes to the underlying stream is a choice among full / short by k / zero / EINTR (<=3 in a row) / hard error of four kinds (other, WouldBlock, BrokenPipe, TimedOut); scripts of up to max_calls scripted calls, at most `bound` non-default answers per script (all bounds 0..=B enumerated completely); streams: a scripted ReadVolatile/WriteVolatile and the real File adapter over interposed read(2)/write(2); targets: slice, region, guest memory with two adjacent regions, a hole and a third region behind it (ranges may end in the hole or behind it); a case is non-trivial when its script contains at least one non-default answer; distinct = distinct (case, script) pairs, by construction of the DFS; plus, for every case, runs of 4, 33, 64 and 1000 EINTR answers in a row (alone and after a one-byte transfer) followed by default answers; plus transfers of 1 MiB+2 .. 3 MiB+4101 bytes in one call at slice, region and two-region guest-memory level, all four forms, with short calls of 1, 2^20-1, 2^20, 2^20+1 and 2^21+5 bytes and with streams capped at 700001 bytes per call, and with the first, second, third or fourth stream call failing (the error surfaces, what arrived before it is in place)");
+    ctx.set_rule("choice-tree DFS: every call the transfer makes to the underlying stream is a choice among full / short by k / zero / EINTR (<=3 in a row) / hard error of four kinds (other, WouldBlock, BrokenPipe, TimedOut); scripts of up to max_calls scripted calls, at most `bound` non-default answers per script (all bounds 0..=B enumerated completely); streams: a scripted ReadVolatile/WriteVolatile and the real File adapter over interposed read(2)/write(2); targets: slice, region, guest memory with two adjacent regions, a hole and a third region behind it (ranges may end in the hole or behind it); a case is non-trivial when its script contains at least one non-default answer; distinct = distinct (case, script) pairs, by construction of the DFS; plus, for every case, runs of 4, 33, 64 and 1000 EINTR answers in a row (alone and after a one-byte transfer) followed by default answers; plus host byte buffers as readers (&[u8], Cursor<&[u8]>, Cursor<Vec<u8>>) holding fewer, as many or more bytes than asked, both read forms at three levels, followed by a second transfer from the same reader (what left the reader is in guest memory, in order); plus transfers of 1 MiB+2 .. 3 MiB+4101 bytes in one call at slice, region and two-region guest-memory level, all four forms, with short calls of 1, 2^20-1, 2^20, 2^20+1 and 2^21+5 bytes and with streams capped at 700001 bytes per call, and with the first, second, third or fourth stream call failing (the error surfaces, what arrived before it is in place)");
     ctx.assume("the scripted stream and the interposed syscalls deliver exactly what the script says");
     if let Err(e) = crate::interpose::selftest() {
         ctx.machinery(&format!("interposition self-test failed: {}", e));
@@ -1057,6 +1166,8 @@ pub fn run(tier: Tier, replay: Option<String>) -> i32 {
         }
     }
     ctx.extra("long_eintr_run_scripts", json!(long_runs));
+    let hb = host_buffer_readers(&ctx);
+    ctx.extra("host_buffer_reader_cases", json!(hb));
     let lt = large_transfers(&ctx, tier.thorough());
     ctx.extra("large_transfer_scripts", json!(lt));
     ctx.set_exhaustive(true);
